@@ -207,3 +207,13 @@ def defining_class(fn):
         if obj is None:
             return None
     return obj if inspect.isclass(obj) else None
+
+
+class OptInt:
+    """Optional[int] with symbolic presence: `isnone` (z3 Bool) and `val` (z3 Int, meaningful when not None)"""
+
+    def __init__(self, isnone, val):
+        self.isnone, self.val = isnone, val
+
+    def __repr__(self):
+        return f'<OptInt {self.val}>'
